@@ -50,7 +50,8 @@ ReqOK(in, out) ==
 \* configurations (DESIGN.md, "Observations beyond the listed properties").
 \*   muxInFront: the configuration has a banner or a shim path;  canonical: path.Clean leaves the decoded path alone
 ReqOKUnder(muxInFront, canonical, in, out, clientStatus) ==
-  IF muxInFront /\ ~canonical THEN out.method = "NONE" /\ clientStatus = 301
+  IF muxInFront /\ ~canonical THEN out.method = "NONE" /\ clientStatus \in {301, 0}   \* (0: the redirect came while the client was
+                                                                                     \*  still sending a large body, and its write failed)
   ELSE ReqOK(in, out)
 
 \* C03: the response the client receives (out) for the backend's response (in)
